@@ -217,6 +217,15 @@ def handleKw (args : List String) : String :=
     | _, _, _, _, _ => "bad-op"
   | _ => "bad-op"
 
+/-- keyword on the wire: `<namehex>:<data01>:<slash01>:<rec|rec|…|none>` -/
+def readKwOut (s : String) : Option KwOut :=
+  match s.splitOn ":" with
+  | [nm, d, sl, recs] =>
+    match ofHex nm, (if recs = "none" then some [] else (recs.splitOn "|").mapM readRecord) with
+    | some name, some rs => some { name := name, dataKw := d == "1", slashTerm := sl == "1", records := rs }
+    | _, _ => none
+  | _ => none
+
 def handle (op : String) (args : List String) : String :=
   match op, args with
   | "deck.strip", [h] => match ofHex h with
@@ -287,6 +296,10 @@ def handle (op : String) (args : List String) : String :=
     -- the translator's view of the code keywords (share/keywords/*), sorted by name
     let l := OpmVerif.Gen.RawConsts.codeKeywords.map fun kw => hx kw.1 ++ ":" ++ hx kw.2
     ",".intercalate (l.toArray.qsort (· < ·)).toList
+  | "deck.wdeck", [kws] =>
+    match (kws.splitOn "~").mapM readKwOut with
+    | some ks => hx (writeDeckM idFmt OpmVerif.Gen.RawConsts.outFlushPendingDefaults ⟨0, 0⟩ ks)
+    | none => "bad-op"
   | "deck.write", [split, rec] => match readRecord rec with
     | some r => hx (writeRecord idFmt OpmVerif.Gen.RawConsts.outFlushPendingDefaults (split == "1") r)
     | none => "bad-op"
